@@ -531,7 +531,7 @@ func (child *partitionConsumer) parseMessages(msgSet *MessageSet) ([]*ConsumerMe
 			if msg.Msg.Version >= 1 {
 				baseOffset := msgBlock.Offset - msgBlock.Messages()[len(msgBlock.Messages())-1].Offset
 				offset += baseOffset
-				if msg.Msg.LogAppendTime {
+				if msgBlock.Msg.LogAppendTime {
 					timestamp = msgBlock.Msg.Timestamp
 				}
 			}
